@@ -259,8 +259,9 @@ impl Driver {
         let snap = std::sync::Arc::clone(&self.node.shared.snapshot());
         self.node.shared.tx_pool_controller().clear_pool(snap).map_err(|e| e.to_string())?;
         self.node.wait_pool_synced()?;
-        let d = self.dump()?;
-        if !d.entries.is_empty() || self.node.tip().number() != 0 {
+        // (this node's own pool: several pool nodes may live in one process)
+        let info = self.node.shared.tx_pool_controller().get_tx_pool_info().map_err(|e| e.to_string())?;
+        if info.pending_size + info.proposed_size != 0 || self.node.tip().number() != 0 {
             return Err("reset did not reach the empty state".into());
         }
         self.mined = 0;
@@ -272,6 +273,11 @@ impl Driver {
         let mut d = Self::boot_with(dir, cons, pool_config(rbf, variant), true)?;
         d.u = PoolUniverse::new(cons, variant);
         Ok(d)
+    }
+
+    /// wrap an already booted pool node
+    pub fn adopt(node: Node, cons: &Consensus) -> Driver {
+        Driver { node, cons: cons.clone(), u: PoolUniverse::new(cons, 0), clock: time_for_height(0), mined: 0, resets: 0 }
     }
 
     pub fn boot_with(dir: &std::path::Path, cons: &Consensus, cfg: TxPoolConfig, assembler: bool) -> Result<Driver, String> {
